@@ -71,6 +71,21 @@ def _plain(x: Any) -> Any:
     return repr(x)
 
 
+def _sig_match(listed: dict, computed: dict) -> bool:
+    """A listed signature matches iff it has exactly the computed keys and every value is equal
+    (a listed value that is a list means "any of these")."""
+    if set(listed) != set(computed):
+        return False
+    for k, v in listed.items():
+        c = computed[k]
+        if isinstance(v, list):
+            if c not in v:
+                return False
+        elif v != c:
+            return False
+    return True
+
+
 class Sim:
     """State of one simulated run."""
 
@@ -193,7 +208,7 @@ class Sim:
         if signature is not None:
             for kf in self.known_findings:
                 sig = kf.get("signature", {})
-                if kf.get("property") == self.prop and sig == signature:
+                if kf.get("property") == self.prop and _sig_match(sig, signature):
                     self.known_seen[kf["id"]] += 1
                     self.event("known-finding", kf["id"])
                     return
